@@ -1159,6 +1159,30 @@ class Gen:
                     ed.insert(b["e"] - 1, f" {i_pat} += {inc}; ", ("rule", "R30"))
                     loops[idx] = (n, "chars_index")
                     self.fired("R30")
+                elif itx["k"] == "MethodCall" and itx["a"]["method"] == "chars" and not kids(itx, "arg") and p["k"] == "PatIdent":
+                    # R30c: `for c in S.chars() { B }` -> `while let Some(c) = __chars.next() { B }` with ghost `__seen` (the chars taken so far);
+                    # `break` keeps its meaning, `continue` is not supported
+                    if any(x["k"] == "Continue" for x in walk(b)):
+                        raise Inconclusive(f"unsupported construct: `continue` inside a chars() for-loop at {src.rel}:{src.line_of(n['s'])}")
+                    S = T(kid(itx, "receiver"))
+                    c_pat = T(p)
+                    ed.replace(n["s"], b["s"], f"let mut __chars = {S}.chars(); let ghost mut __seen: Seq<char> = Seq::empty();\n"
+                               f"        while let Some({c_pat}) = __chars.next()", ("rule", "R30"))
+                    for t, o in pieces:
+                        ed.insert(b["s"], t, o)
+                    ed.insert(b["s"] + 1, f" let ghost __seen0 = __seen; proof {{ lemma_head_skip(); __seen = __seen.push({c_pat}); assert(__seen.drop_last() =~= __seen0); }} /*@@loop{idx}:begin@@*/",
+                              ("rule", "R30"))
+                    loops[idx] = (n, "chars_index")
+                    self.fired("R30c")
+                elif itx["k"] == "MethodCall" and itx["a"]["method"] == "lines" and not kids(itx, "arg") and "linesloop" in it["opts"]:
+                    # R41l (`linesloop`): `for l in S.lines() { B }` -> `let mut __lines = __lines_iter(S); while let Some(l) = __lines.next() { B }`
+                    S = T(kid(itx, "receiver"))
+                    ed.replace(n["s"], p["s"], f"let mut __lines{idx} = __lines_iter({S});\n        while let Some(", ("rule", "R41"))
+                    ed.replace(p["e"], b["s"], f") = __lines{idx}.next()", ("rule", "R41"))
+                    for t, o in pieces:
+                        ed.insert(b["s"], t, o)
+                    loops[idx] = (n, "for")
+                    self.fired("R41l")
                 elif itx["k"] == "Path" and itx["a"]["path"] in it.get("iterloops", []):
                     # R41: `for X in IT { B }` over a user-defined iterator whose `next` is under contract -> `while let Some(X) = it.next()`
                     # (`break` / `continue` mean the same in the `while let` form)
